@@ -2043,9 +2043,15 @@ func (i *Iterator) Advance(key search.Key) bool {
 		ii = i.header.Namespaces[ns].Index
 	}
 	if i.header.Namespaces[ns].TypeAndNamespace > nn {
+		// The target's namespace isn't present in this list, so we land on
+		// the first value of the following namespace. Consume it, leaving
+		// i.i at the next id to be read, otherwise Next() would return it
+		// for a second time.
 		i.ns = ns
 		i.i = i.header.Namespaces[i.ns].Index
-		i.value, _ = binary.Uvarint(i.ids[i.i:])
+		var n int
+		i.value, n = binary.Uvarint(i.ids[i.i:])
+		i.i += n
 		return true
 	}
 
